@@ -46,6 +46,13 @@ class Response(Exception):
         return "%s %s" % (self.code, self.data)
 
 
+class LiteralBytes:
+    """Bytes that are already formatted as a literal ({n+} CRLF content)."""
+
+    def __init__(self, data: bytes):
+        self.data = data
+
+
 class Literal(Exception):
     def __init__(self, value):
         self.value = value
@@ -227,16 +234,26 @@ class Client:
         """
         ret = []
         for a in args:
-            if isinstance(a, bytes):
-                if self.__size_expr.match(a):
-                    ret += [a]
-                else:
-                    ret += [b'"' + a + b'"']
+            if isinstance(a, LiteralBytes):
+                ret += [a.data]
                 continue
+            if isinstance(a, bytes):
+                if b"\0" in a:
+                    raise Error("NUL is not allowed in a string")
+                if b"\r" in a or b"\n" in a:
+                    # cannot be sent as a quoted string
+                    ret += [b"{%d+}%s%s" % (len(a), CRLF, a)]
+                else:
+                    ret += [
+                        b'"' + a.replace(b"\\", b"\\\\").replace(b'"', b'\\"') + b'"'
+                    ]
+                continue
+            if isinstance(a, int) and a < 0:
+                raise Error("negative number")
             ret += [bytes(str(a).encode("utf-8"))]
         return ret
 
-    def __prepare_content(self, content: str) -> bytes:
+    def __prepare_content(self, content: str) -> LiteralBytes:
         """Format script content before sending it.
 
         Script length must be inserted before the content,
@@ -246,7 +263,7 @@ class Client:
         :return: transformed script as bytes
         """
         bcontent: bytes = content.encode("utf-8")
-        return b"{%d+}%s%s" % (len(bcontent), CRLF, bcontent)
+        return LiteralBytes(b"{%d+}%s%s" % (len(bcontent), CRLF, bcontent))
 
     def __send_command(
         self,
